@@ -1,19 +1,21 @@
-\* (i) Bidirectional - behaviour generation by transition coverage: bhist is outside the VIEW,
-\* every transition (state, action) of the state graph prints the shortest history reaching it
+\* (i) Bidirectional - END CAUSE x PEER BEHAVIOUR: every conn can be half-closed, the endpoints are peers that react to what
+\* they are told (Reactive: a waiting endpoint closes once it sees end-of-stream, with fairness).  Whatever ends a direction
+\* (clean EOF, read error, write error; either side; any point) the other side is told (BToldSafe, BTold) and one side ending
+\* is enough for the relay to return (BReturnsWhenOneSideEnds).  Safety + liveness.
 CONSTANTS
-  MaxSend = @@MAXSEND@@
+  MaxSend = 1
   EofWithData = TRUE
-  ShapesA <- LocalShapes
-  ShapesB <- @@SHAPESB@@
+  ShapesA <- CwLocal
+  ShapesB <- CwShapes
   DevDeadlineAt = "none"
   DevDeadlineHits = {"read"}
   Monitor = FALSE
   IdleMax = 2
   DevMonNoFeed = FALSE
-  Reactive = FALSE
+  Reactive = TRUE
   DevNoSignalOnError = FALSE
   DevCloseWriterFallback = FALSE
-  Emit = @@EMIT@@
+  Emit = FALSE
   Classes = {1}
   BatchSize = 32
   BatchBuf = 22
@@ -34,8 +36,7 @@ CONSTANTS
   DevQueueRefs = FALSE
   DevSockDeadline = FALSE
   DevDropOnClose = FALSE
-INIT BInit
-NEXT BNext
-VIEW bview
+SPECIFICATION BSpec
 INVARIANTS BTypeOK BPipe BComplete BReverseKeepsFlowing BNoSpuriousEnd BNoSpuriousWriteEnd BNoDeadline BMonitorOnlyIdle BToldSafe
+PROPERTIES BMonotone BTermination BReverseDelivered BTold BReturnsWhenOneSideEnds
 CHECK_DEADLOCK FALSE
